@@ -113,9 +113,9 @@ def queued_flag_discipline(r, ctx):
             t = describe_operand(pop, c.args[1])
             ck = _kind_of(dom_guards(pop, c.block), "pop")[0]
             # one re-queue shared by the kinds puts back the popped entry itself
-            popped = t == "tuple(pop_front(self.write_queue)<Some>.0.0, pop_front(self.write_queue)<Some>.0.1)"
+            popped = t in ("tuple(pop_front(self.write_queue)<Some>.0.0, pop_front(self.write_queue)<Some>.0.1)", "pop_front(self.write_queue)<Some>.0")
             if ck == kind or (ck is None and popped):
-                r.check((t.startswith("tuple(UplinkKind::%s()" % kind) or popped) and "pop_front(self.write_queue)<Some>.0.1" in t, "pop/%s/requeue-same-entry" % kind, c.loc(),
+                r.check(popped or (t.startswith("tuple(UplinkKind::%s()" % kind) and "pop_front(self.write_queue)<Some>.0.1" in t), "pop/%s/requeue-same-entry" % kind, c.loc(),
                         "re-queues the same (kind, id)", "re-queues %s" % t)
                 rep.add(c.block)
             elif ck is None:
